@@ -184,7 +184,7 @@ def render(case, workdir):
         prots.append({"name": prefix + tnames[t], "base": tnames[t], "decoy": True,
                       "peps": sorted(int(q) + m for q in inc[t])})
         entries[len(prots)] = (prefix + tnames[t], dseqs[t])
-    if mode in ("none", "partial", "mirror") and case["seed"] % 3 == 0:
+    if case.get("cross_ok") and mode in ("none", "partial", "mirror") and case["seed"] % 3 == 0:
         # a decoy entry built from TARGET peptides (peptides that read the same in both directions, low-complexity sequence):
         # its peptide set lies inside a target's; grouping goes by peptide sets, whatever the kind of the entries
         free = [t for t in range(n) if t not in dseqs]
@@ -405,7 +405,7 @@ def random_incidence(rng, nmax, mmax):
 
 def make_case(idx, inc, npep, seed, torders, mode=None):
     return {"idx": idx, "inc": [list(r) for r in inc], "npep": npep, "seed": int(seed),
-            "mode": mode or MODES[seed % len(MODES)], "torders": [list(t) for t in torders]}
+            "mode": mode or MODES[seed % len(MODES)], "torders": [list(t) for t in torders], "cross_ok": True}
 
 
 def signature(case, tr):
